@@ -29,6 +29,7 @@ inline World genWorld(Src &s, bool unfinishedBlocks) {
         if (w.table[i].query) {
             int ni = (int) s.weighted({1, 4, 3, 1});
             for (int k = 0; k < ni; k++) sc.items.push_back(genItem(s));
+            if (unfinishedBlocks && s.prob(1, 10)) { OItem d; d.kind = O_BLOCKDATA; d.s = "xyz"; sc.items.push_back(d); }   // data call without a header: refused unless block accounting leaked
             if (unfinishedBlocks && s.prob(1, 8)) { OItem h; h.kind = O_BLOCKHDR; h.u = s.range(3, 9); sc.items.push_back(h); OItem d; d.kind = O_BLOCKDATA; d.s = "ab"; sc.items.push_back(d); }   // announces more than it sends
         }
         if (s.prob(1, 10)) { OItem x; x.kind = O_ERRPUSH; x.code = -221; sc.items.insert(sc.items.begin() + (long) s.range(0, sc.items.size()), x); }
